@@ -149,6 +149,7 @@ def batches(ctx):
         r = impl_m0(c)
         if r["from_mask"] is not None:
             r["from_mask"] = [unex(c, y) for y in r["from_mask"]]
+            r["from_mask"] = [y if isinstance(y, int) and not isinstance(y, bool) and y >= 0 else 10 ** 30 for y in r["from_mask"]]
         return r
 
     def impl_m0(c):
@@ -169,8 +170,12 @@ def batches(ctx):
             m = "exc:" + type(e).__name__
         try:
             back = S.subseq_from_mask(c["mask"], parent)
+            if not isinstance(back, list):
+                back = ["!not-a-list"]
         except IndexError:
             back = None
+        except Exception as e:  # noqa: BLE001 - any other exception is an answer the model never gives
+            back = ["!" + type(e).__name__]
         return {"mask": m, "from_mask": back, "complete": S.subseq_complete(parent)}
 
     def mask_lit(r):
